@@ -75,6 +75,17 @@ def num(x):
     return float(x) if x != "" else None
 
 
+class Blank(Exception):
+    pass
+
+
+def fl(x):
+    """numeric cell that must not be blank"""
+    if isinstance(x, str):
+        raise Blank("blank / non-numeric cell %r where a number is required" % (x,))
+    return float(x)
+
+
 def inactive(node, ph):
     return bool(node.pc) and ph not in node.pc
 
@@ -90,6 +101,13 @@ def select_parent(model, node, rows, ph):
 
 def check_table(model, df, sys_=None, ta=25.0, energy=False, phase_arg="", tol=REL):
     """row-wise + aggregate run-time postcondition of solve() (C01, C02, C04, C05, C06, C07, C09).  -> list of Fail"""
+    try:
+        return _check_table(model, df, sys_, ta, energy, phase_arg, tol)
+    except Blank as b:
+        return [fail("table.blank", "solve() table malformed: %s" % b, ["C01", "C02", "C07", "C16"])]
+
+
+def _check_table(model, df, sys_=None, ta=25.0, energy=False, phase_arg="", tol=REL):
     F = []
     cols = list(df.columns)
     rows, dup = rows_by_key(df)
@@ -115,8 +133,8 @@ def check_table(model, df, sys_=None, ta=25.0, energy=False, phase_arg="", tol=R
             if r is None:
                 F.append(fail("rows.missing", "no row for component %s phase %r" % (name, ph), ["C01", "C16"])); continue
             if r["Type"] != node.type: F.append(fail("rows.type", "%s: Type %s != %s" % (name, r["Type"], node.type), ["C16"]))
-            vin, vout, iin, iout = float(r["Vin (V)"]), float(r["Vout (V)"]), float(r["Iin (A)"]), float(r["Iout (A)"])
-            pw, ls, ef = float(r["Power (W)"]), float(r["Loss (W)"]), float(r["Efficiency (%)"])
+            vin, vout, iin, iout = fl(r["Vin (V)"]), fl(r["Vout (V)"]), fl(r["Iin (A)"]), fl(r["Iout (A)"])
+            pw, ls, ef = fl(r["Power (W)"]), fl(r["Loss (W)"]), fl(r["Efficiency (%)"])
             for x in (vin, vout, iin, iout, pw, ls, ef):
                 if math.isnan(x) or math.isinf(x): F.append(fail("row.notfinite", "%s: NaN/inf in row" % name, ["C03"]))
             ina = inactive(node, ph)
@@ -134,8 +152,8 @@ def check_table(model, df, sys_=None, ta=25.0, energy=False, phase_arg="", tol=R
                 sp = select_parent(model, node, rows, ph); sel[name] = sp
                 feed = sp if sp is not None else node.parents[0]
                 pr = rows.get((feed, ph))
-                if pr is not None and not cl(vin, float(pr["Vout (V)"])):
-                    F.append(fail("row.vin", "%s [%s]: Vin %g != Vout %g of the feeding component %s" % (name, ph, vin, float(pr["Vout (V)"]), feed), ["C01", "C05"] if len(node.parents) > 1 else ["C01"]))
+                if pr is not None and not cl(vin, fl(pr["Vout (V)"])):
+                    F.append(fail("row.vin", "%s [%s]: Vin %g != Vout %g of the feeding component %s" % (name, ph, vin, fl(pr["Vout (V)"]), feed), ["C01", "C05"] if len(node.parents) > 1 else ["C01"]))
                 dom[name] = dom.get(feed, "?")
                 off_in = sp is None
                 if sp is not None or len(node.parents) == 1:
@@ -151,7 +169,7 @@ def check_table(model, df, sys_=None, ta=25.0, energy=False, phase_arg="", tol=R
                 cn = model.nodes[c]
                 csel = select_parent(model, cn, rows, ph) if len(cn.parents) > 1 else name
                 cr = rows.get((c, ph))
-                if cr is not None and csel == name: isum += float(cr["Iin (A)"])
+                if cr is not None and csel == name: isum += fl(cr["Iin (A)"])
             if not cl(iout, isum):
                 F.append(fail("row.iout", "%s [%s]: Iout %g != sum of the input currents of the children it feeds %g" % (name, ph, iout, isum), ["C01", "C05"]))
             # ---------------- laws
@@ -226,14 +244,14 @@ def check_table(model, df, sys_=None, ta=25.0, energy=False, phase_arg="", tol=R
             # ---------------- energy (C07)
             if energy and "24h energy (Wh)" in cols:
                 exp_e = energy_of(model, ph, pw)
-                if not cl(float(r["24h energy (Wh)"]), exp_e): F.append(fail("row.energy", "%s [%s]: 24h energy %g != %g" % (name, ph, float(r["24h energy (Wh)"]), exp_e), ["C07"]))
+                if not cl(fl(r["24h energy (Wh)"]), exp_e): F.append(fail("row.energy", "%s [%s]: 24h energy %g != %g" % (name, ph, fl(r["24h energy (Wh)"]), exp_e), ["C07"]))
             for cname, val, tag in (("Group", node.group, "group"), ("Rail out", node.rail, "railout")):
                 if cname in cols and r[cname] != val: F.append(fail("row." + tag, "%s: %s %r != %r" % (name, cname, r[cname], val), ["C16", "C08"]))
         # ---------------- aggregates (C07, C09 roll-up, C02 system balance)
         comp_rows = [(n, rows[(n, ph)]) for n in order if (n, ph) in rows]
-        srcp = sum(float(r["Power (W)"]) for n, r in comp_rows if model.nodes[n].type == "SOURCE")
-        loadp = sum(float(r["Power (W)"]) for n, r in comp_rows if model.nodes[n].type == "LOAD")
-        losses = sum(float(r["Loss (W)"]) for n, r in comp_rows)
+        srcp = sum(fl(r["Power (W)"]) for n, r in comp_rows if model.nodes[n].type == "SOURCE")
+        loadp = sum(fl(r["Power (W)"]) for n, r in comp_rows if model.nodes[n].type == "LOAD")
+        losses = sum(fl(r["Loss (W)"]) for n, r in comp_rows)
         d2 = any(model.nodes[n].K == "Source" and model.nodes[n].P["vo"] < 0 and model.nodes[n].P["rs"] > 0 for n in order)
         if not d2 and not close(srcp, loadp + losses, tol, 1e-6 * max(1.0, srcp)):
             F.append(fail("sys.balance", "[%s] power from sources %g != load power %g + losses %g" % (ph, srcp, loadp, losses), ["C02"]))
@@ -241,22 +259,22 @@ def check_table(model, df, sys_=None, ta=25.0, energy=False, phase_arg="", tol=R
         tr_ = rows.get(("System total", ph))
         if tr_ is None: F.append(fail("total.missing", "no System total row [%s]" % ph, ["C07"]))
         else:
-            tp_, tl_ = float(tr_["Power (W)"]), float(tr_["Loss (W)"])
+            tp_, tl_ = fl(tr_["Power (W)"]), fl(tr_["Loss (W)"])
             if not cl(tp_, srcp) or not cl(tl_, losses): F.append(fail("total.sums", "[%s] System total %g/%g != sum of source powers %g / all losses %g" % (ph, tp_, tl_, srcp, losses), ["C07"]))
-            te = float(tr_["Efficiency (%)"])
+            te = fl(tr_["Efficiency (%)"])
             if tp_ > 0 and (not close(te, 100 * (tp_ - tl_) / tp_, tol, 100 * tol) or te > 100 * (1 + 1e-4)): F.append(fail("total.eff", "[%s] total efficiency %g" % (ph, te), ["C07"]))
             if (tr_["Warnings"] == "Yes") != anywarn: F.append(fail("total.warn", "[%s] System total warning %r but component warnings %s" % (ph, tr_["Warnings"], anywarn), ["C09"]))
-            if energy and "24h energy (Wh)" in cols and not cl(float(tr_["24h energy (Wh)"]), energy_of(model, ph, tp_)): F.append(fail("total.energy", "[%s] total energy" % ph, ["C07"]))
-            totals[ph] = (tp_, tl_, te, float(tr_["24h energy (Wh)"]) if (energy and "24h energy (Wh)" in cols) else None)
+            if energy and "24h energy (Wh)" in cols and not cl(fl(tr_["24h energy (Wh)"]), energy_of(model, ph, tp_)): F.append(fail("total.energy", "[%s] total energy" % ph, ["C07"]))
+            totals[ph] = (tp_, tl_, te, fl(tr_["24h energy (Wh)"]) if (energy and "24h energy (Wh)" in cols) else None)
         if nsrc > 1:
             for s_ in model.sources():
                 sr = rows.get(("Subsystem " + s_, ph)); srow = rows.get((s_, ph))
                 if sr is None: F.append(fail("sub.missing", "no Subsystem row for %s [%s]" % (s_, ph), ["C07"])); continue
                 members = [r for n, r in comp_rows if dom.get(n) == s_]
-                ml = sum(float(r["Loss (W)"]) for r in members)
-                if not cl(float(sr["Loss (W)"]), ml): F.append(fail("sub.loss", "[%s] Subsystem %s loss %g != sum over the components it powers %g" % (ph, s_, float(sr["Loss (W)"]), ml), ["C07", "C16"]))
+                ml = sum(fl(r["Loss (W)"]) for r in members)
+                if not cl(fl(sr["Loss (W)"]), ml): F.append(fail("sub.loss", "[%s] Subsystem %s loss %g != sum over the components it powers %g" % (ph, s_, fl(sr["Loss (W)"]), ml), ["C07", "C16"]))
                 if srow is not None:
-                    if not cl(float(sr["Power (W)"]), float(srow["Power (W)"])) or not cl(float(sr["Iout (A)"]), float(srow["Iout (A)"])) or not cl(float(sr["Vin (V)"]), float(srow["Vin (V)"])):
+                    if not cl(fl(sr["Power (W)"]), fl(srow["Power (W)"])) or not cl(fl(sr["Iout (A)"]), fl(srow["Iout (A)"])) or not cl(fl(sr["Vin (V)"]), fl(srow["Vin (V)"])):
                         F.append(fail("sub.source", "[%s] Subsystem %s voltage/current/power differ from its source row" % (ph, s_), ["C07"]))
                 mw = any(r["Warnings"] != "" for r in members)
                 if (sr["Warnings"] == "Yes") != mw: F.append(fail("sub.warn", "[%s] Subsystem %s warning %r but members' warnings %s" % (ph, s_, sr["Warnings"], mw), ["C09", "C07"]))
@@ -269,12 +287,12 @@ def check_table(model, df, sys_=None, ta=25.0, energy=False, phase_arg="", tol=R
             T = sum(model.phases[p] for p in phases)
             ap = sum(totals[p][0] * model.phases[p] for p in phases) / T; al = sum(totals[p][1] * model.phases[p] for p in phases) / T
             ae = sum(totals[p][2] * model.phases[p] for p in phases) / T
-            if not cl(float(av["Power (W)"]), ap) or not cl(float(av["Loss (W)"]), al) or not close(float(av["Efficiency (%)"]), ae, tol, 100 * tol):
-                F.append(fail("avg.mean", "System average %g/%g/%g != duration-weighted means %g/%g/%g" % (float(av["Power (W)"]), float(av["Loss (W)"]), float(av["Efficiency (%)"]), ap, al, ae), ["C07"]))
+            if not cl(fl(av["Power (W)"]), ap) or not cl(fl(av["Loss (W)"]), al) or not close(fl(av["Efficiency (%)"]), ae, tol, 100 * tol):
+                F.append(fail("avg.mean", "System average %g/%g/%g != duration-weighted means %g/%g/%g" % (fl(av["Power (W)"]), fl(av["Loss (W)"]), fl(av["Efficiency (%)"]), ap, al, ae), ["C07"]))
             if energy and "24h energy (Wh)" in cols:
                 se = sum(totals[p][3] for p in phases)
-                if not cl(float(av["24h energy (Wh)"]), se) or not cl(float(av["24h energy (Wh)"]), 24.0 * ap):
-                    F.append(fail("avg.energy", "per-phase energies %g do not add up to the energy of the average %g" % (se, float(av["24h energy (Wh)"])), ["C07"]))
+                if not cl(fl(av["24h energy (Wh)"]), se) or not cl(fl(av["24h energy (Wh)"]), 24.0 * ap):
+                    F.append(fail("avg.energy", "per-phase energies %g do not add up to the energy of the average %g" % (se, fl(av["24h energy (Wh)"])), ["C07"]))
         for k in list(rows):
             if k[0] == "System average": expect_names.add(k)
     extra = [k for k in rows if k not in expect_names]
